@@ -76,6 +76,8 @@ impl Group for C10Sim {
             // commitments refused by the payment-balance validation (outgoing HTLC unapproved / overpaying), every entry point
             c("vh 0 g 9|rv 0|scp 0 9|scp 0 10|scp 0 11|scp1 0 10|vh 0 g 10|vh1 0 g 11|vh 0 g 9|rv 0"),
             c("vh 0 g 10|vh 0 g 0|rv 0|scp 0 11|scp 0 0|cpr 0 g|scp1 0 11|shx 0 b|shx 0 g"),
+            // activation requested again while a validated commitment waits for its revocation
+            c("vh 0 g 1|act|rv 0|vh 0 g 0|act|shr|act"),
             // initial commitment: activation before validation, refused validation, then the regular flow
             c("world fresh|act|vh 0 b 0|act|vh1 0 g 0|act|act|vh 0 g 1|rv 0"),
             // the channel map fills up: creation (also of an existing stub) is refused until one is forgotten
